@@ -3,16 +3,17 @@
 # every check silent (exit 0); every seeded change in seeded/*/patch.diff must be reported by the check(s) named in
 # its meta.json "expect" list.  Applies each patch to /repo and undoes it straight afterwards.
 cd /verif || exit 2
+REPO=${VERIF_REPO:-/repo}
 fail=0
-for p in selftest/benign/*.diff; do
-  git -C /repo apply "$PWD/$p" || { echo "cannot apply $p"; fail=1; continue; }
+for p in ${VARIANTS:-selftest/benign/*.diff}; do
+  git -C $REPO apply "$PWD/$p" || { echo "cannot apply $p"; fail=1; continue; }
   for c in ${CHECKS:-C01 C02 C03 C04 C05 C06 C07 C08 C09 C10 C11 C12 C13 C14 C15 C16 C17 C18 C19 C20}; do
-    ./check $c >/tmp/selftest.$$ 2>&1; rc=$?
-    if [ $rc -ne 0 ]; then echo "BENIGN $p: $c exit $rc"; grep -E "^(UNDEC|VIOL|ANALYSIS)" /tmp/selftest.$$ | head -2; fail=1; fi
+    ./check $c >${TMPDIR:-/tmp}/selftest.$$ 2>&1; rc=$?
+    if [ $rc -ne 0 ]; then echo "BENIGN $p: $c exit $rc"; grep -E "^(UNDEC|VIOL|ANALYSIS)" ${TMPDIR:-/tmp}/selftest.$$ | head -2; fail=1; fi
   done
-  git -C /repo checkout -- .
-  git -C /repo clean -fdq -- src include examples
+  git -C $REPO checkout -- .
+  git -C $REPO clean -fdq -- src include examples
 done
-rm -f /tmp/selftest.$$
+rm -f ${TMPDIR:-/tmp}/selftest.$$
 [ $fail -eq 0 ] && echo "benign variants: all checks silent"
 exit $fail
